@@ -18,9 +18,11 @@ chain is checked the same way against the log it was cut from.
 "complete in B[:k]": plain file - all bytes of the line except possibly its line feed are in the prefix (the JSON text
 of the record is complete); .gz file - the whole gzip member of the line is in the prefix (coba's DiskSink(batch=1)
 opens, writes one member and closes the file for every record, so a killed run leaves whole members plus a prefix of
-one member; the prefixes are taken from the real file the run produced, including its trailing empty member).
+one member; the prefixes are taken from the real file the run produced, including its trailing empty member). That the
+real code does leave such files is not assumed but checked by the 'kill' sub-check, which kills a real child process and
+resumes from whatever it left (plain, .gz and paths that only contain ".gz").
 """
-import os, sys, json, gzip, zlib, shutil, tempfile, itertools, copy
+import os, sys, json, gzip, zlib, shutil, tempfile, itertools, copy, subprocess, functools
 from hypothesis import strategies as st
 
 from vlib.core import Sub
@@ -44,14 +46,18 @@ RULE = ("a case = experiment descriptor (1-3 environments x 1-3 learners x 1-2 e
         "ordinal, position class and fraction, optionally followed by a second crash of the resumed run's log, resumed "
         "in-process with a generated maxtasksperchunk. 'bytes': fixed descriptors, EVERY byte offset of the plain and of the "
         ".gz log, enumerated in blocks of 48 offsets (complete for those logs). 'multiproc': one crash point, resumed with "
-        "2 worker processes / maxchunksperchild / maxtasksperchunk. A case is non-trivial when a crash offset lies strictly "
+        "2 worker processes / maxchunksperchild / maxtasksperchunk. 'kill': no truncation - a real child process runs the experiment "
+        "and dies by os._exit when evaluation n+1 starts (n generated); the file it left is resumed and the n finished triples must "
+        "not be evaluated again. 'big': fixed experiments with 360 KB logs and 70-200 KB records, cuts around the 64 KiB blocks "
+        "(4 KiB for gz) the tail search of the restore works in. File kinds everywhere: log.txt, log.gz and paths that merely "
+        "contain '.gz' (log.gz.bak, runs.gz.d/log.txt - gzip by coba's rule). A case is non-trivial when a crash offset lies strictly "
         "inside a record or between two I records; distinct = distinct canonical JSON of the case")
 ASSUMPTIONS = [
     "the re-run uses 'the same experiment': an identically constructed twin (same components in the same order, same seed, same description)",
     "triples of an experiment are pairwise distinct (a triple listed twice is recorded twice even without interruption)",
     "components do not raise (a triple whose evaluation failed is not recorded and is legitimately evaluated again)",
     "experiment seeds are integers (seed=None draws from the clock)",
-    "interruption = the file keeps a byte prefix of what the killed run had written; nothing else in the file system changes",
+    "truncation sub-checks: interruption = the file keeps a byte prefix of what the killed run had written; 'kill' sub-check: the process dies by os._exit (no Python cleanup, OS keeps what was written) at the start of an evaluation; power loss / lost page cache is not modelled",
     "plain file: a record counts as recorded when all bytes of its line except possibly the line feed are on disk; .gz file: when its whole gzip member is on disk",
     "predict_time / learn_time columns are not compared",
     "multi-process re-runs sample OS schedules, they do not enumerate them",
@@ -75,6 +81,8 @@ class Env:
         CobaContext.store = {}
         CobaContext._learning_info = {}
         self.n = 0
+        self.name = None            # file name (may contain a directory) overriding log.txt / log.gz; any name containing ".gz" is a gzip file
+        self.roots = {}
         from vlib.core import load_known
         self.listed = set(load_known(ID))
         return self
@@ -88,10 +96,12 @@ class Env:
     def fresh(self, gz):
         self.n += 1
         d = os.path.join(self.dir, "r%d" % self.n)
-        os.makedirs(d)
-        return os.path.join(d, "log.gz" if gz else "log.txt"), os.path.join(d, "side")
+        path = os.path.join(d, self.name or ("log.gz" if gz else "log.txt"))
+        os.makedirs(os.path.dirname(path))
+        self.roots[path] = d
+        return path, os.path.join(d, "side")
     def drop(self, path):
-        shutil.rmtree(os.path.dirname(path), ignore_errors=True)
+        shutil.rmtree(self.roots.pop(path), ignore_errors=True)
 
 def run_experiment(desc, path, side, config=None):
     """Build a fresh twin and run it. Returns (Result, exceptions logged during the run)."""
@@ -124,26 +134,33 @@ def split_records(data, gz):
         if not d.eof:
             raise ValueError("gz log does not end at a member boundary")
         end = len(data) - len(d.unused_data)
-        out.append((pos, end, text.decode("utf-8")))
+        lines = text.decode("utf-8").split("\n")
+        if len(lines) > 1 and lines[-1] == "": lines.pop()
+        for ln in lines:                                   # coba writes one member per record; if a member holds several
+            out.append((pos, end, ln))                     # records they all share its span (none is on disk before its end)
         pos = end
     return out
 
-def rec_type(text):
-    if text is None or text.strip() == "": return "gztail"
+@functools.lru_cache(maxsize=512)
+def _head(text):
+    """(record type, ids of an I record or None, I record without rows?)"""
+    if text is None or text.strip() == "": return ("gztail", None, False)
     o = json.loads(text)
-    return "I" if o[0] == "I" else str(o[0])
+    if o[0] != "I": return (str(o[0]), None, False)
+    return ("I", tuple(o[1]), not (o[2].get("_packed") or {k: v for k, v in o[2].items() if k != "_packed"}))
+
+def rec_type(text):
+    return _head(text)[0]
 
 def complete_upto(records, k, gz):
     """indices of the records that count as recorded in the prefix of length k"""
     return [i for i, (s, e, _) in enumerate(records) if (k >= e if gz else k >= e - 1)]
 
 def i_ids(text):
-    o = json.loads(text)
-    return tuple(o[1]) if o[0] == "I" else None
+    return _head(text)[1]
 
 def is_empty_I(text):
-    o = json.loads(text)
-    return o[0] == "I" and not (o[2].get("_packed") or {k: v for k, v in o[2].items() if k != "_packed"})
+    return _head(text)[2]
 
 def read_lines(path, gz):
     opener = gzip.open if gz else open
@@ -201,11 +218,17 @@ def resume_and_check(env, desc, gz, log, records, k, config=None):
     done_ids = [i_ids(records[i][2]) for i in done if rec_type(records[i][2]) == "I"]
     empty_ids = {i_ids(t) for _, _, t in records if rec_type(t) == "I" and is_empty_I(t)}
     where = dict(k=k, of=len(log), gz=gz, cut=describe_cut(records, k, gz))
+    if env.name: where["name"] = env.name
     torn = k == 0 or any(s_ < k < e_ for s_, e_, _ in records)     # the prefix ends strictly inside a record (or holds nothing)
+    no_exp = k == records[0][1] or not any(rec_type(t) == "experiment" for _, _, t in records)   # (second clause: chained cut of such a log)
+    return check_resume(env, desc, gz, log[:k], done_ids, empty_ids, where, torn, no_exp, config)
 
+def check_resume(env, desc, gz, prefix, done_ids, empty_ids, where, torn=False, no_exp=False, config=None):
+    """Resume from a file holding `prefix` with a fresh twin and check (1)-(4); done_ids = id triples recorded in the prefix."""
+    ids = C.assigned_ids(desc)
     path, side = env.fresh(gz)
     with open(path, "wb") as f:
-        f.write(log[:k])
+        f.write(prefix)
     try:
         try:
             res, logged = run_experiment(desc, path, side, config)
@@ -230,7 +253,6 @@ def resume_and_check(env, desc, gz, log, records, k, config=None):
     want = env.want
     known = None
     got, got_file = norm_result(res), norm_result(from_file)
-    no_exp = k == records[0][1] or not any(rec_type(t) == "experiment" for _, _, t in records)   # (second clause: chained cut of such a log)
     if no_exp and got["experiment"] == {} and got_file["experiment"] == {} and want["experiment"] != {}:
         known = Known(KNOWN_NO_EXPERIMENT, "(1) Result.experiment is {} after resuming from a log that holds only the version record | " + ", ".join(f"{a}={b!r}" for a, b in where.items()))
         known.final = final
@@ -242,7 +264,7 @@ def resume_and_check(env, desc, gz, log, records, k, config=None):
     redone = [t for t in evaluated if ids.get(t) in done_ids]
     if redone:
         bad = [t for t in redone if ids[t] not in empty_ids]
-        msg = "(2) triples whose I record is complete in the cut file were evaluated again"
+        msg = "(2) triples whose I record is complete in the interrupted file were evaluated again"
         if bad:
             require(False, msg, triples=[ids[t] for t in bad], **where)
         known = known or Known(KNOWN_EMPTY, msg + f" (all of them have an I record without rows) | triples={[ids[t] for t in redone]}, " + ", ".join(f"{a}={b!r}" for a, b in where.items()))
@@ -341,6 +363,7 @@ def run_offsets(env, desc, gz, log, records, ks, config=None):
 def run_sweep(case):
     desc, gz = case["desc"], case["gz"]
     with Env() as env:
+        env.name = case.get("name")
         log, records = baseline(env, desc, gz)
         if case.get("all") and len(log) <= 2048:
             ks = range(0, len(log) + 1)
@@ -351,6 +374,7 @@ def run_sweep(case):
 def run_point(case):
     desc, gz = case["desc"], case["gz"]
     with Env() as env:
+        env.name = case.get("name")
         log, records = baseline(env, desc, gz)
         known = None
         for cut in case["cuts"]:
@@ -371,6 +395,61 @@ def run_bytes(case):
         log, records = baseline(env, desc, gz)
         lo = case["block"] * BLOCK                      # blocks are sized from a dry run, see enumerate_bytes
         run_offsets(env, desc, gz, log, records, range(lo, min(lo + BLOCK, len(log) + 1)))
+
+def run_kill(case):
+    """REAL interruption: a child process runs the experiment in-process and dies without any cleanup (os._exit inside the
+    evaluator double) when evaluation number kill_after+1 starts. By then coba has handed the records of the kill_after finished
+    triples to the sink (the pipeline is lazy: a triple is only started after the previous record was written and flushed), so
+    they must survive: the file the dead process left is resumed as it is and must not evaluate those triples again."""
+    desc, gz = case["desc"], case["gz"]
+    with Env() as env:
+        env.name = case.get("name")
+        log, records = baseline(env, desc, gz)
+        empty_ids = {i_ids(t) for _, _, t in records if rec_type(t) == "I" and is_empty_I(t)}
+        path, side = env.fresh(gz)
+        arg = json.dumps({"desc": desc, "path": path, "side": side, "kill_after": case["kill_after"]})
+        try:
+            p = subprocess.run([sys.executable, "-W", "ignore", "-m", "vlib.comps_c02", arg], cwd=env.dir, env=dict(os.environ),
+                               stdout=subprocess.PIPE, stderr=subprocess.STDOUT, timeout=600)
+            require(p.returncode in (0, 17), "the run that was to be killed failed by itself", rc=p.returncode, output=p.stdout.decode("utf-8", "replace")[-600:])
+            finished = C.read_side(side)
+            prefix = b""
+            if os.path.exists(path):
+                with open(path, "rb") as f:
+                    prefix = f.read()
+        finally:
+            env.drop(path)
+        ids = C.assigned_ids(desc)
+        require(len(finished) == min(case["kill_after"], len(ids)) and (p.returncode == 17) == (case["kill_after"] < len(ids)),
+                "harness: the child was not killed where planned", finished=finished, rc=p.returncode)
+        where = dict(killed_when_starting_evaluation=case["kill_after"] + 1, file_bytes=len(prefix), gz=gz, finished=[ids[t] for t in finished])
+        if env.name: where["name"] = env.name
+        check_resume(env, desc, gz, prefix, [ids[t] for t in finished], empty_ids, where)
+
+def big_offsets(records, gz, tier):
+    """crash points for logs/records beyond the 64 KiB blocks coba's tail search works in (plain) / the 4 KiB read steps (gz)"""
+    ks = set()
+    ps = [1, 65534, 65535, 65536, 65537, 65538, 131071, 131072, 131073, 131072 + 777] if not gz else [1, 4095, 4096, 4097, 8191, 8192, 8193, 65536]
+    if tier == "thorough":
+        ps += [p + d for p in ((65536, 131072) if not gz else (4096, 8192)) for d in (-9, -5, -3, 3, 5, 9)]
+    for s_, e_, t in records:
+        n = e_ - s_
+        for p_ in ps:
+            if p_ < n: ks.add(s_ + p_)
+        if n >= 2 and (e_ > 65536 or n > 4096):
+            ks.update({s_ + 1, s_ + n // 2, e_ - 1, e_})
+            if gz and n > 16: ks.update({e_ - 8, e_ - 4})
+    return sorted(ks)
+
+def run_big(case):
+    desc, gz = BIG[case["big"]], case["gz"]
+    with Env() as env:
+        env.name = case.get("name")
+        log, records = baseline(env, desc, gz)
+        if len(log) <= 2 * 65536 or max(e - s for s, e, _ in records) <= 65536:
+            raise RuntimeError("harness: the big descriptor no longer produces a log > 128 KiB with a record > 64 KiB")
+        ks = big_offsets(records, gz, case["tier"])
+        run_offsets(env, desc, gz, log, records, ks[case["part"]::case["parts"]])
 
 # =============================================================================================== descriptors
 RECORDS = [["reward"], ["reward", "action"], ["reward", "action", "probability"], ["reward", "context"], ["reward", "actions"],
@@ -450,6 +529,13 @@ def descriptors(draw, small=False, timing=True):
         desc["tuples"] = list(perm[:n])
     return desc
 
+NAMES = [None, None, "log.gz.bak", "runs.gz.d/log.txt"]      # DiskSink/DiskSource treat every path CONTAINING ".gz" as gzip
+
+@st.composite
+def file_kinds(draw):
+    gz = draw(st.sampled_from([True, False]))
+    return {"gz": gz, "name": draw(st.sampled_from(NAMES)) if gz else None}
+
 POS = ["boundary", "boundary", "first", "last", "interior", "interior"]
 RTYPES = ["I", "I", "I", "I", "E", "L", "V", "experiment", "version", "gztail"]
 
@@ -464,8 +550,8 @@ def selectors(draw):
 def sweep_cases(draw, tier):
     every = tier == "thorough" and draw(one_in(4))       # every byte offset (if the log turns out <= 2 KB)
     desc = draw(descriptors(small=every))
-    return {"desc": desc, "gz": draw(st.sampled_from([True, False])), "fracs": [draw(st.integers(0, 99)) / 100 for _ in range(3)],
-            "mt": draw(st.sampled_from([0, 0, 1, 2])), "all": every}
+    return dict(draw(file_kinds()), desc=desc, fracs=[draw(st.integers(0, 99)) / 100 for _ in range(3)],
+                mt=draw(st.sampled_from([0, 0, 1, 2])), all=every)
 
 @st.composite
 def point_cases(draw, tier):
@@ -473,14 +559,20 @@ def point_cases(draw, tier):
     cuts = [draw(selectors())]
     if draw(one_in(4)):
         cuts.append(draw(selectors()))
-    return {"desc": desc, "gz": draw(st.sampled_from([True, False])), "cuts": cuts, "config": {"maxtasksperchunk": draw(st.sampled_from([0, 0, 1, 3]))}}
+    return dict(draw(file_kinds()), desc=desc, cuts=cuts, config={"maxtasksperchunk": draw(st.sampled_from([0, 0, 1, 3]))})
 
 @st.composite
 def multiproc_cases(draw, tier):
     desc = draw(descriptors(timing=False))
     cfg = draw(st.sampled_from([{"processes": 2}, {"processes": 2, "maxtasksperchunk": 1}, {"processes": 1, "maxchunksperchild": 1},
                                 {"processes": 2, "maxchunksperchild": 2, "maxtasksperchunk": 2}]))
-    return {"desc": desc, "gz": draw(st.sampled_from([True, False])), "cuts": [draw(selectors())], "config": cfg}
+    return dict(draw(file_kinds()), desc=desc, cuts=[draw(selectors())], config=cfg)
+
+@st.composite
+def kill_cases(draw, tier):
+    desc = draw(descriptors(timing=False))
+    n = len(C.triple_indices(desc))
+    return dict(draw(file_kinds()), desc=desc, kill_after=draw(st.integers(0, n)))
 
 # ----------------------------------------------------------------------------------------------- fixed descriptors for 'bytes'
 def _g(n, na, seed, **kw): return dict({"kind": "grid", "n": n, "na": na, "seed": seed}, **kw)
@@ -510,6 +602,25 @@ FIXED = [
      "vals": [_seq(["reward"])], "shape": "tuples", "tuples": [(0, 1, 0), (1, 1, 0), (0, 0, 0), (1, 2, 0), (0, 2, 0), (1, 0, 0)],
      "description": None, "seed": 1},
 ]
+def _wide(width, rows=1): return {"kind": "wide", "width": width, "rows": rows}
+
+BIG = [
+    # 0: I records of ~70 KB, ~150 KB (3 rows) and small ones, log ~ 290 KB; the big records are neither first nor last
+    {"envs": [_g(1, 2, 1), _g(2, 2, 2, ctx="str")], "lrns": [{"kind": "random"}, {"kind": "ucb"}],
+     "vals": [_seq(["reward"]), _wide(70000), _wide(50000, 3)], "shape": "tuples",
+     "tuples": [(0, 0, 0), (0, 0, 1), (1, 0, 2), (1, 1, 0), (0, 1, 1), (1, 1, 1)], "description": None, "seed": 1},
+    # 1: one record of ~200 KB in the middle, ~66 KB records around it
+    {"envs": [_g(1, 2, 3), _g(1, 3, 4)], "lrns": [{"kind": "hist", "k": 2, "info": False}],
+     "vals": [_wide(66000), _wide(40000, 5), _seq(["reward", "action"])], "shape": "cross", "description": "big", "seed": 2},
+]
+
+def enumerate_big(tier):
+    parts = 2 if tier == "quick" else 4
+    for i in ([0] if tier == "quick" else range(len(BIG))):
+        for gz, name in ((False, None), (True, None)) + (((True, "runs.gz.d/log.txt"),) if tier == "thorough" else ()):
+            for part in range(parts):
+                yield {"big": i, "gz": gz, "name": name, "tier": tier, "part": part, "parts": parts}
+
 QUICK_FIXED = [0, 2]
 _SIZES = {}
 
@@ -546,12 +657,23 @@ def desc_classes(desc):
     if any(used.count(l) > 1 for l in set(used)): out.append("learner-shared")
     return out
 
+def kind_class(case):
+    return ("gz-name:" + case["name"]) if case.get("name") else ("gz" if case["gz"] else "plain")
+
+def classes_kill(case):
+    n = n_triples(case["desc"])
+    k = case["kill_after"]
+    return [kind_class(case), "killed:" + ("before-first-triple" if k == 0 else "after-all" if k >= n else "between-triples")] + desc_classes(case["desc"])[:2]
+
+def classes_big(case):
+    return [kind_class(case), "big=%d" % case["big"]]
+
 def classes_sweep(case):
-    return ["gz" if case["gz"] else "plain"] + desc_classes(case["desc"]) + (["all-bytes-if<=2KB"] if case.get("all") else [])
+    return [kind_class(case)] + desc_classes(case["desc"]) + (["all-bytes-if<=2KB"] if case.get("all") else [])
 
 def classes_point(case):
     kind = "gz" if case["gz"] else "plain"
-    out = [kind, "cuts=%d" % len(case["cuts"])]
+    out = [kind_class(case), "cuts=%d" % len(case["cuts"])]
     for c in case["cuts"]:
         rt = c["rtype"] if not (c["rtype"] == "gztail" and not case["gz"]) else "any"
         out.append(f"{kind}:{rt}:{c['pos']}")
@@ -577,10 +699,10 @@ def view(case):
 
 SUBCHECKS = [
     Sub(name="sweep", run=run_sweep, strategy=sweep_cases, nontrivial=lambda c: True, classes=classes_sweep, classify=classify,
-        quick=90, thorough=1200, quick_shards=2, quick_budget_s=42, thorough_budget_s=150,
+        quick=45, thorough=1200, quick_shards=1, quick_budget_s=42, thorough_budget_s=150,
         what="generated experiment x {plain,gz}: k=0, every record boundary, first/last/interior byte of every record (thorough: every byte if log<=2KB); oracle (1)-(4) at every k"),
     Sub(name="point", run=run_point, strategy=point_cases, nontrivial=nontrivial_point, classes=classes_point, classify=classify,
-        quick=1500, thorough=40000, quick_shards=3, quick_budget_s=42, thorough_budget_s=150,
+        quick=1000, thorough=40000, quick_shards=2, quick_budget_s=42, thorough_budget_s=150,
         what="generated experiment x {plain,gz} x one crash point (record type, ordinal, position class), 25% followed by a second crash of the resumed log; in-process re-run with generated maxtasksperchunk"),
     Sub(name="bytes", run=run_bytes, enumerate=enumerate_bytes, nontrivial=lambda c: True, classes=classes_bytes, classify=classify, exhaustive=True,
         quick_shards=2, quick_budget_s=48, thorough_budget_s=150,
@@ -588,4 +710,10 @@ SUBCHECKS = [
     Sub(name="multiproc", run=run_point, strategy=multiproc_cases, nontrivial=nontrivial_point, classes=classes_point, classify=classify,
         quick=8, thorough=200, quick_shards=1, quick_budget_s=42, thorough_budget_s=150,
         what="as 'point' but the re-run uses spawned worker processes (processes=2 / maxchunksperchild / maxtasksperchunk)"),
+    Sub(name="kill", run=run_kill, strategy=kill_cases, nontrivial=lambda c: 0 < c["kill_after"], classes=classes_kill, classify=classify,
+        quick=16, thorough=400, quick_shards=1, quick_budget_s=40, thorough_budget_s=150,
+        what="REAL interruption: a child process running the experiment (plain / gz / '.gz' inside the path) dies by os._exit when evaluation n+1 starts; the file it left is resumed: the n finished triples must not be evaluated again, oracle (1)-(4)"),
+    Sub(name="big", run=run_big, enumerate=enumerate_big, nontrivial=lambda c: True, classes=classes_big, classify=classify,
+        quick_shards=1, thorough_shards=16, quick_budget_s=45, thorough_budget_s=150,
+        what="fixed experiments with logs of 290 KB and records of 66-200 KB: cuts leaving a partial final record of 65534..65538 / 131071..131073 / 131072+777 bytes, and first/middle/last byte and end of every record lying beyond the first 64 KiB (plain); 4095..4097 / 8191..8193 / trailer bytes of big members (gz)"),
 ]
